@@ -15,7 +15,7 @@ PROPS['C15'] = dict(
           '(blank x delay-zero pattern, name length class, bytes behind the terminator) and how unrepresentable ones read back, undersized '
           'destination (file kind, version, image region of the length, guard kind, error code), byte-string class (magic, version code, counts, '
           'mutation) x load outcome, WOPN_BanksCmp operand classes; a case is non-trivial when a saved or offered image was loaded and compared'),
-    floor=120,
+    floor=300,
     assumptions=['names are compared as C strings up to the capacity of the in-memory field (31 characters for instruments, 32 for banks)',
                  'values the version-2 format cannot express (sounding entry with both delays 0, blank entry with delays, reserved flag / '
                  'velocity offset / volume model) are only required to be stable after the first trip',
